@@ -298,6 +298,12 @@ def setup_repo_path():
     for name in [m for m in sys.modules if m == "monkeytype" or m.startswith("monkeytype.")]:
         del sys.modules[name]
     importlib.invalidate_caches()
+    import logging
+    import warnings
+    warnings.simplefilter("ignore")
+    lg = logging.getLogger("monkeytype")      # "Failed to serialize trace" etc. are expected in fault experiments
+    lg.addHandler(logging.NullHandler())
+    lg.propagate = False
     import monkeytype
     got = os.path.dirname(os.path.dirname(os.path.abspath(monkeytype.__file__)))
     if os.path.realpath(got) != os.path.realpath(REPO):
